@@ -27,6 +27,11 @@ where
     let seed = ctx.sub_seed(name, 0);
     let strat = mk();
     let values = pt::generate(seed, n, &strat);
+    // children are forked (resource limits are set between fork and exec): fork copies the page tables, so memory
+    // that earlier in-process parts freed but the allocator kept is given back first
+    unsafe {
+        libc::malloc_trim(0);
+    }
     let outcomes: Vec<CaseOutcome> = values.par_iter().map(|v| eval(v)).collect();
     let mut first_fail: Option<usize> = None;
     let mut local = Local::default();
